@@ -384,6 +384,37 @@ pub fn run(rep: &'static Report) {
         }
         rep.extra("peak_dec_trailing_data", json!(peaks.iter().map(|p| json!([p.0,p.1])).collect::<Vec<_>>()));
     }
+    // authentic streams whose chunks all have DIFFERENT lengths (what an encryptor fed by short, varying reads writes):
+    // the peak heap of decryption must not depend on how many such chunks there are
+    {
+        let tkey = derive32(1, "c11-tiny");
+        let mut peaks = vec![];
+        for nchunks in [16usize, rep.tier.pick(256, 1024)] {
+            rep.eval(1);
+            // chunk i has length 1000 + 61*i (all distinct, <= 65536)
+            let lens: Vec<usize> = (0..nchunks).map(|i| 1000 + 61 * i).collect();
+            let total: usize = lens.iter().sum();
+            let plain: Vec<u8> = (0..total).map(pbyte).collect();
+            let ct = r::write_chunks(&tkey, &[], &plain, &lens);
+            drop(plain);
+            let mut src = &ct[..];
+            let mut sink = std::io::sink();
+            let sub = Subject::TinyDec { key: hx(&tkey), aad: String::new(), cs: CS as u32 };
+            let (res, m) = mon::measured(|| run_rw(&sub, &mut src, &mut sink));
+            if !res.is_ok() {
+                rep.violation("mem/op-failed", json!({"kind":"varying-chunks","chunks":nchunks}), format!("decryption of an authentic stream of {} chunks of distinct lengths failed: {}", nchunks, res.brief()));
+            }
+            peaks.push((nchunks, total, m.peak_above_mark));
+            rep.nontrivial(format!("varying-chunks-{}", nchunks).as_bytes());
+        }
+        let lo = peaks.iter().map(|p| p.2).min().unwrap();
+        let hi = peaks.iter().map(|p| p.2).max().unwrap();
+        // the larger stream has larger chunks (up to 64 KiB): allow for the chunk buffers themselves, not for the stream
+        if hi > lo + 4 * CS {
+            rep.violation("mem/grows-with-number-of-distinct-chunk-lengths", json!({"kind":"varying-chunks","peaks":peaks.iter().map(|p| json!([p.0,p.1,p.2])).collect::<Vec<_>>()}), format!("peak heap of decryption grows with the number of chunks when their lengths differ: {:?} (chunks, plaintext bytes, peak heap)", peaks));
+        }
+        rep.extra("peak_dec_varying_chunk_lengths", json!(peaks.iter().map(|p| json!([p.0,p.1,p.2])).collect::<Vec<_>>()));
+    }
     // oracle (ii): each chunk written before more than two further chunks of input were consumed
     for p in &points {
         if p.lag_chunks > 2 {
@@ -483,6 +514,27 @@ fn cli_stream_opts(args: &[&str], env: &[(&str, &str)], cwd: &std::path::Path, i
     };
     let outn = Arc::new(AtomicUsize::new(0));
     let o2 = outn.clone();
+    // with `-o out.bin` the output is a file: its length, polled, is the amount of output that has appeared
+    let out_is_file = args.iter().any(|a| *a == "-o");
+    let stop_poll = Arc::new(std::sync::atomic::AtomicBool::new(false));
+    let poller = if out_is_file {
+        let path = cwd.join("out.bin");
+        let o4 = outn.clone();
+        let stop = stop_poll.clone();
+        Some(std::thread::spawn(move || {
+            while !stop.load(Ordering::SeqCst) {
+                if let Ok(m) = std::fs::metadata(&path) {
+                    o4.store(m.len() as usize, Ordering::SeqCst);
+                }
+                std::thread::sleep(std::time::Duration::from_millis(2));
+            }
+            if let Ok(m) = std::fs::metadata(&path) {
+                o4.store(m.len() as usize, Ordering::SeqCst);
+            }
+        }))
+    } else {
+        None
+    };
     let reader = std::thread::spawn(move || {
         if stall_ms > 0 {
             std::thread::sleep(std::time::Duration::from_millis(stall_ms));
@@ -537,6 +589,10 @@ fn cli_stream_opts(args: &[&str], env: &[(&str, &str)], cwd: &std::path::Path, i
     let rc = unsafe { libc::wait4(pid, &mut status, 0, &mut ru) };
     let paused = feeder.join().unwrap_or((0, 0));
     let _ = reader.join();
+    stop_poll.store(true, std::sync::atomic::Ordering::SeqCst);
+    if let Some(p) = poller {
+        let _ = p.join();
+    }
     std::mem::forget(child); // already reaped by wait4
     if rc != pid {
         return Err("wait4 failed".into());
@@ -567,12 +623,21 @@ fn cli_level(rep: &Report) {
                 for via_fifo in [false, true] {
                     jobs.push((format!("{}{}", name, if via_fifo { "-fifo-arg" } else { "" }), args.clone(), pw.to_string(), sz, via_fifo));
                 }
+                // output to -o FILE, fresh or already holding a (short) file: it must grow while the input is still arriving
+                for pre in ["-o-fresh", "-o-preexisting"] {
+                    let mut a = args.clone();
+                    a.extend_from_slice(&["-o", "out.bin"]);
+                    jobs.push((format!("{}{}", name, pre), a, pw.to_string(), sz, false));
+                }
             }
         }
         jobs.par_iter()
             .map(|(name, args, pw, sz, via_fifo)| {
                 let sc = Scratch::new();
                 sc.write("kr.txt", kr.as_bytes());
+                if name.ends_with("-o-preexisting") {
+                    sc.write("out.bin", &vec![b'X'; 300]);
+                }
                 let sz = *sz;
                 let (input, insize): (Box<dyn FnMut(&mut [u8]) -> usize + Send>, usize) = if name.contains("decrypt") {
                     // lazily generated conforming ciphertext
